@@ -271,32 +271,41 @@ def ch_channeled(ctx, rep):
     sw = A.method("StoreImpl", "subscribed_with")
     rep.note_fn(sw.path)
     bp = ctx.prog.bp(sw)
-    # R1: the user subscriber flows only into the spawned closure
-    spawns = [s for s in ctx.prog.sites(sw) if s.ck in THREAD_SPAWN]
+    # R1: the user subscriber flows only into the spawned closure (helpers of subscribed_with are
+    # inlined, so the spawn may sit in a private helper)
+    pe_sw = ctx.paths(sw, inline=True)
+    rep.stats["paths"] += len(pe_sw.paths)
+    evs = {}
+    for p_ in pe_sw.paths:
+        for e in p_.calls():
+            if e.site is not None:
+                evs.setdefault((e.site.body.path, e.site.bb), e)
+    spawns = [e for e in evs.values() if e.ck in THREAD_SPAWN]
     if not rep.exact("R1", "thread spawns in subscribed_with", len(spawns), 1, ctx.where(sw)):
         return
     sp = spawns[0]
-    cls = [st for st in subterms(bp.arg_term(sp.bb, 1)) if st[0] == "agg" and st[1].startswith("closure:")]
+    cls = [st for st in subterms(sp.args[1]) if st[0] == "agg" and st[1].startswith("closure:")]
     if len(cls) != 1:
-        rep.bad("R1", "spawn-closure", sp.where, "spawn argument is not a closure created here")
+        rep.bad("R1", "spawn-closure", sp.site.where, "spawn argument is not a closure created here")
         return
     c = ctx.prog.by_path[cls[0][1][8:]]
     user = ("param", 4)
     caps = [i for i, part in enumerate(cls[0][2]) if any(x == user for x in subterms(part))]
-    rep.check(len(caps) == 1, "R1", "user-subscriber-moved-into-thread", sp.where, "the user's subscriber is moved into the spawned closure", "the user's subscriber is captured %d times" % len(caps))
+    rep.check(len(caps) == 1, "R1", "user-subscriber-moved-into-thread", sp.site.where, "the user's subscriber is moved into the spawned closure", "the user's subscriber is captured %d times" % len(caps))
     # no other use of the user subscriber in subscribed_with
     others = []
-    for s in ctx.prog.sites(sw):
-        for ai in range(len(s.term["args"])):
-            t = bp.arg_term(s.bb, ai)
+    for e in evs.values():
+        if getattr(e, "inlined", False):
+            continue
+        for t in e.args:
             if any(x == user for x in subterms(t)) and not any(x == cls[0] for x in subterms(t)):
-                others.append(s)
+                others.append(e.site)
     rep.check(not others, "R1", "user-subscriber-used-nowhere-else", others[0].where if others else ctx.where(sw), "the user's subscriber is not used on the caller's thread", "the user's subscriber is also passed to %s" % [s.ck for s in others])
     # the wrapper registered in the list does not contain it
-    adds = [s for s in ctx.prog.sites(sw) if ctx.prog.callee_body(s) is not None and ctx.prog.callee_body(s).j.get("name") == "add_subscriber"]
-    for s in adds:
-        t = bp.arg_term(s.bb, 1)
-        rep.check(not any(x == user for x in _flat(ctx, sw, t)), "R1", "registered-wrapper-does-not-hold-user-subscriber", s.where, "the listed wrapper only holds the channel", "the listed wrapper contains the user's subscriber")
+    adds = [e for e in evs.values() if ctx.prog.callee_body(e.site) is not None and ctx.prog.callee_body(e.site).j.get("name") == "add_subscriber"]
+    for e in adds:
+        t = e.args[1]
+        rep.check(not any(x == user for x in _flat(ctx, e.site.body, t)), "R1", "registered-wrapper-does-not-hold-user-subscriber", e.site.where, "the listed wrapper only holds the channel", "the listed wrapper contains the user's subscriber")
     rep.floor("R1", "registrations of the wrapper", len(adds), 1)
     # delivery loop: on_notify at exactly one site, in the thread's call tree only
     reach = ctx.sync_reach([c])
@@ -367,10 +376,11 @@ def ch_channeled(ctx, rep):
     good = len(calls) == 1 and calls[0].args[1] == ("const", "store::DEFAULT_CAPACITY", "usize") and calls[0].args[2][0] == "agg" and calls[0].args[2][1].endswith("BackpressurePolicy::BlockOnFull") and calls[0].args[3] == ("param", 2)
     rep.check(good, "R5", "subscribed-defaults", ctx.where(sd), "subscribed() = subscribed_with(DEFAULT_CAPACITY, BlockOnFull, subscriber)", "subscribed() passes %s" % [term_str(a) for e in calls for a in e.args])
     # the channel of subscribed_with uses the caller's capacity and policy
-    ctor = [s for s in ctx.prog.sites(sw) if A.is_chan_ctor_call(s)]
+    ctor = [e for e in evs.values() if A.is_chan_ctor_call(e.site)]
     if rep.exact("R5", "channels created by subscribed_with", len(ctor), 1, ctx.where(sw)):
-        args = [bp.arg_term(ctor[0].bb, i) for i in range(len(ctor[0].term["args"]))]
-        rep.check(("param", 2) in args and ("param", 3) in args, "R5", "channel-uses-callers-capacity-and-policy", ctor[0].where, "per-subscriber channel built with the given capacity and policy", "per-subscriber channel built with %s" % [term_str(a) for a in args])
+        args = list(ctor[0].args)
+        rep.check(("param", 2) in args and ("param", 3) in args, "R5", "channel-uses-callers-capacity-and-policy", ctor[0].site.where, "per-subscriber channel built with the given capacity and policy", "per-subscriber channel built with %s" % [term_str(a) for a in args])
+
 
 
 def ch_channeled_release(ctx, rep):
@@ -379,9 +389,10 @@ def ch_channeled_release(ctx, rep):
     cr_sites = [s for s in ctx.prog.sites() if s.ck in THREAD_JOIN]
     rep.floor("R2", "thread joins", len(cr_sites), 1)
     for js in cr_sites:
-        b = js.body
+        b = ctx.helper_root(js.body)
         rep.note_fn(b.path)
-        pe = ctx.paths(b)
+        rep.note_fn(js.body.path)
+        pe = ctx.paths(b, inline=True)
         rep.stats["paths"] += len(pe.paths)
         for p in pe.paths:
             if p.end != "return":
@@ -394,19 +405,19 @@ def ch_channeled_release(ctx, rep):
             ht = [e for e in p.calls() if e.ck == "std::option::Option::take" and strip_wrap(e.args[0]) == ("field", ("param", 1), A.f_ch_handle)]
             dropped = [e for e in p.events if (e.kind == "drop" and e.target is not None and any(x[0] == "take" and strip_wrap(x[1]) == ("field", ("param", 1), A.f_ch_tx) for x in subterms(e.target))) or (e.kind == "call" and e.ck == "std::mem::drop" and any(x[0] == "take" and strip_wrap(x[1]) == ("field", ("param", 1), A.f_ch_tx) for a in e.args for x in subterms(a)))]
             enq = [e for e in p.calls() if e.site is not None and (A.is_send_wrapper_call(e.site) or any(e.site.ck == w_.path for w_ in []) or (ctx.prog.callee_body(e.site) is not None and any(ctx.prog.callee_body(e.site).path == w_.path for w_ in A.send_wrappers)))]
-            rep.check(not enq, "R2", "release-enqueues-nothing:" + short(b.path), ctx.where(b, enq[0].bb) if enq else ctx.where(b), "the release path puts nothing into the subscriber's channel", "the release path enqueues %s into the subscriber's channel: under a drop policy this evicts a queued notification" % [term_str(e.args[1]) if len(e.args) > 1 else "?" for e in enq])
+            rep.check(not enq, "R2", "release-enqueues-nothing:" + short(b.path), enq[0].site.where if enq else ctx.where(b), "the release path puts nothing into the subscriber's channel", "the release path enqueues %s into the subscriber's channel: under a drop policy this evicts a queued notification" % [term_str(e.args[1]) if len(e.args) > 1 else "?" for e in enq])
             hs = _dec(p, lambda k: k[0] == "discr" and strip_wrap(k[1]) == ("field", ("param", 1), A.f_ch_handle) and k[1][0] != "lockres")
             if hs == "Some":
                 good = len(joins) == 1 and txt and dropped and p.events.index(dropped[0]) < p.events.index(joins[0]) and strip_wrap(joins[0].args[0]) == ("vfield", ("take", ("wrap", "Guard", ("field", ("param", 1), A.f_ch_handle))), "Some", 0) or False
                 good = len(joins) == 1 and bool(txt) and bool(dropped) and p.events.index(dropped[0]) < p.events.index(joins[0])
-                rep.check(good, "R2", "disconnect-then-join:" + short(b.path), ctx.where(b, joins[0].bb) if joins else ctx.where(b), "sender slot emptied and dropped, then the subscriber thread is joined", "release path [%s]: sender dropped first=%s, joins=%d" % (p.describe(), bool(dropped) and bool(joins) and p.events.index(dropped[0]) < p.events.index(joins[0]), len(joins)))
+                rep.check(good, "R2", "disconnect-then-join:" + short(b.path), joins[0].site.where if joins else ctx.where(b), "sender slot emptied and dropped, then the subscriber thread is joined", "release path [%s]: sender dropped first=%s, joins=%d" % (p.describe(), bool(dropped) and bool(joins) and p.events.index(dropped[0]) < p.events.index(joins[0]), len(joins)))
             else:
                 rep.check(not joins, "R2", "second-release-does-nothing:" + short(b.path), ctx.where(b), "handle already taken: no join (idempotent)", "join without handle")
         # reached from on_unsubscribe and Subscription::unsubscribe of the wrapper
         for tr, m in (("Subscriber", "on_unsubscribe"), ("Subscription", "unsubscribe")):
             try:
                 e = A.method(A.name_of(A.channeled_adt), m, tr)
-                rep.check(b.path in ctx.sync_reach([e]), "R2", "release-reached-from:%s" % m, ctx.where(e), "%s releases the channel and joins" % m, "%s does not reach the release" % m)
+                rep.check(js.body.path in ctx.sync_reach([e]), "R2", "release-reached-from:%s" % m, ctx.where(e), "%s releases the channel and joins" % m, "%s does not reach the release" % m)
             except AnchorMissing as ex:
                 rep.anchor_missing("R2", ex.what)
 
